@@ -80,11 +80,20 @@ func (c *XAConn) PrepareContext(ctx context.Context, query string) (driver.Stmt,
 	//	return types.NewResult(types.WithRows(ret)), nil
 	//})
 
-	return c.Conn.PrepareContext(ctx, query)
+	stmt, err := c.Conn.PrepareContext(ctx, query)
+	if st, ok := stmt.(*Stmt); ok && err == nil {
+		st.owner = c
+	}
+	return stmt, err
 }
 
 // QueryContext exec xa sql
 func (c *XAConn) QueryContext(ctx context.Context, query string, args []driver.NamedValue) (driver.Rows, error) {
+	return c.queryWith(ctx, query, args, c.Conn.QueryContext)
+}
+
+// queryWith: see ATConn.queryWith
+func (c *XAConn) queryWith(ctx context.Context, query string, args []driver.NamedValue, run queryRunner) (driver.Rows, error) {
 	if c.createOnceTxContext(ctx) {
 		defer func() {
 			c.txCtx = types.NewTxCtx()
@@ -92,7 +101,7 @@ func (c *XAConn) QueryContext(ctx context.Context, query string, args []driver.N
 	}
 
 	ret, err := c.createNewTxOnExecIfNeed(ctx, func() (types.ExecResult, error) {
-		ret, err := c.Conn.QueryContext(ctx, query, args)
+		ret, err := run(ctx, query, args)
 		if err != nil {
 			return nil, err
 		}
